@@ -114,7 +114,7 @@ def _rows(arr, width_hint=0):
     return [[str(v) for v in np.atleast_1d(row)] for row in a]
 
 
-def project(atoms, R, residual_tol=1e-6):
+def project(atoms, R, residual_tol=1e-6, cell_tol=None):
     """mofun.Atoms -> K-level value.  Never raises on a malformed object: problems are named in K['wf']."""
     problems = []
     K = {}
@@ -155,7 +155,7 @@ def project(atoms, R, residual_tol=1e-6):
             K["cell"] = []
         else:
             ic, res = R.unvec(np.array(atoms.cell, dtype=float))
-            if res > min(residual_tol, 1e-6):
+            if res > (min(residual_tol, 1e-6) if cell_tol is None else cell_tol):
                 problems.append("cell not on the rendered lattice (residual %.3g)" % res)
             K["cell"] = ic.tolist()
     except Exception as e:  # malformed object: report, do not guess
